@@ -16,13 +16,25 @@ import time
 import traceback
 
 
+GENERIC = {"convert.py", "abstract/abstract_utils.py", "utils.py", "datatypes.py", "abstract/mixin.py"}
+
+
 def pytype_frame(tb_list, repo):
-  """Innermost frame that belongs to pytype itself (not stdlib, not site-packages)."""
+  """Innermost frame that belongs to pytype itself (not stdlib, not site-packages).  When that frame is in a
+  general-purpose helper module, the nearest caller outside those modules is appended (`helper<caller`), so that
+  two different defects that both end in e.g. convert.value_to_constant keep different fingerprints."""
   root = os.path.join(repo, "pytype") + os.sep
+  inner = None
   for f in reversed(tb_list):
     if f.filename.startswith(root):
-      return os.path.relpath(f.filename, root) + ":" + f.name
-  return "<none>"
+      rel = os.path.relpath(f.filename, root)
+      if inner is None:
+        inner = rel + ":" + f.name
+        if rel not in GENERIC:
+          return inner
+      elif rel not in GENERIC:
+        return inner + "<" + rel + ":" + f.name
+  return inner or "<none>"
 
 
 def main():
